@@ -5,7 +5,7 @@ import itertools
 from .. import AnalysisError
 from ..absint import Evaluator, Unsupported, descriptor, DELETED, AStr
 from ..flow import show, walk_term
-from ..report import ob_ok, ob_fail
+from ..report import ob_ok, ob_fail, ob_undecided
 from .common import (is_call, method_call, node_attr, elem_of, strip_wrappers, guards_of,
                      enclosing_loops, need, callee_name)
 from .order import on_every_path
@@ -564,3 +564,153 @@ def _set_typed(t):
     if t[0] == "binop" and t[1] in ("&", "|", "-", "^"):
         return _set_typed(t[2]) or _set_typed(t[3])
     return False
+
+
+def prov_sampler_setup(repo, tier="quick"):
+    """C16/C17: what the growth loop starts from.  (a) the molecule starts as a copy of the start fragment (the named one when
+    a name is given, a random one otherwise), merged exactly once before the loop; (b) element-derived masses are stored for
+    every fragment under its own name whenever no mass table was given; (c) the three reactivity / terminal tables pass
+    through the order-suffix defaulting before they are stored."""
+    from .common import call_arg, guards_of as _guards
+    obs = []
+    oid = "PROV.sampler-setup"
+    fi = repo.function("sample:MoleculeSampler.sample")
+    fl, cfg = fi.flow, fi.cfg
+    grows = fl.calls_to("sample:MoleculeSampler.add_fragment")
+    need(len(grows) == 1, "expected exactly one add_fragment call in sample()", fi)
+    gcall, gnode, _ = grows[0]
+    loops = enclosing_loops(fi, gnode)
+    need(loops, "add_fragment is not inside a loop", fi, gcall)
+    lp = loops[0]
+    merges = [(c, n) for c, n, _ in fl.calls_to("graph_utils:merge_graphs", "merge_graphs") if not enclosing_loops(fi, n)]
+    if len(merges) != 1:
+        obs.append(ob_fail(oid, fi, construct="%d merge_graphs calls before the growth loop" % len(merges), instance="start:merge",
+                           reason="the molecule does not start as exactly one copy of the start fragment"))
+    else:
+        mc, mn = merges[0]
+        a0, a1 = call_arg(mc, 0, "source_graph"), call_arg(mc, 1, "target_graph")
+        t0 = fl.canon(a0, mn) if a0 is not None else None
+        grown = call_arg(gcall, 0, "molecule")
+        # same variable as the one handed to add_fragment, fresh empty graph at the merge
+        same = isinstance(a0, ast.Name) and isinstance(grown, ast.Name) and a0.id == grown.id
+        fresh = t0 is not None and is_call(t0, "networkx.Graph") is not None and not is_call(t0, "networkx.Graph")[0]
+        dom = cfg.dominates(mn, lp.id)
+        ok = same and fresh and dom
+        (obs.append(ob_ok(oid, fi, mc, construct="merge_graphs(<empty graph>, fragment) once, before the loop, into the graph that is grown", instance="start:merge",
+                          reason="the molecule starts as a copy of one fragment")) if ok else
+         obs.append(ob_fail(oid, fi, mc, construct=ast.unparse(mc), instance="start:merge",
+                            reason="the start fragment is not merged into the (empty) molecule that the loop grows, on every path before the loop")))
+        # which fragment
+        fd = ("attr", SELF, "fragment_dict")
+        sf = ("param", "start_fragment") if "start_fragment" in fi.params else None
+        t1 = fl.canon(a1, mn) if a1 is not None else None
+        cands = []
+        if t1 is not None and t1[0] == "var":
+            for i in t1[2]:
+                d = fl.defs[i]
+                if d.kind == "assign" and d.value is not None and not d.path:
+                    cands.append((fl.canon(d.value, d.node), d.node))
+        elif t1 is not None:
+            cands.append((t1, mn))
+        named_ok = random_ok = False
+        other = []
+        for t, nid in cands:
+            if t[0] == "sub" and t[1] == fd and sf is not None and t[2] == sf:
+                pols = [pol for test, pol, gid in _guards(fi, nid) if fl.canon(test, gid) == sf or
+                        (fl.canon(test, gid)[0] == "cmp" and fl.canon(test, gid)[1] == ("is not",) and fl.canon(test, gid)[2][0] == sf)]
+                named_ok = bool(pols) and all(pols)
+            elif t[0] == "sub" and t[1] == fd:
+                k = t[2]
+                c = is_call(k, "random.choice")
+                inner = strip_wrappers(c[0][0]) if c and c[0] else None
+                mk = method_call(inner, "keys") if inner else None
+                random_ok = bool(inner == fd or (mk and mk[0] == fd))
+            else:
+                other.append(t)
+        good = named_ok and random_ok and not other
+        (obs.append(ob_ok(oid, fi, mc, construct="fragment = fragment_dict[start_fragment] if given else fragment_dict[random.choice(names)]", instance="start:fragment",
+                          reason="the start fragment is the requested one, or a uniformly drawn one of the given fragments")) if good else
+         obs.append(ob_fail(oid, fi, mc, construct="start fragment: %s" % ", ".join(show(t)[:70] for t, _ in cands), instance="start:fragment",
+                            reason="the start fragment is not `fragment_dict[start_fragment]` when a name is given and a random member of fragment_dict otherwise")))
+    # (b) mass table
+    ini = repo.function("sample:MoleculeSampler.__init__")
+    il, icfg = ini.flow, ini.cfg
+    fdp = ("param", "fragment_dict")
+    store = None
+    for n in icfg.nodes:
+        if n.kind == "stmt" and isinstance(n.ast, ast.Assign) and isinstance(n.ast.targets[0], ast.Subscript):
+            tt = il.canon(n.ast.targets[0], n.id)
+            if tt[0] == "sub" and tt[1][0] in ("attr", "var", "call", "dict", "param") and ast.unparse(n.ast.targets[0].value) == "self.fragment_masses":
+                store = (n, tt, il.canon(n.ast.value, n.id))
+    if store is None:
+        obs.append(ob_fail(oid, ini, construct="no self.fragment_masses[name] = ... in __init__", instance="masses:store",
+                           reason="element-derived masses are never stored: sampling without a mass table fails at the first growth step"))
+    else:
+        n, tt, v = store
+        key = tt[2]
+        ek = elem_of(key)
+        c = is_call(v, "compute_mass")
+        ev = elem_of(c[0][0]) if c and c[0] else None
+        src_ok = bool(ek and ev and ek[0] == "key" and ev[0] == "value" and ek[1] == ev[1])
+        coll = strip_wrappers(ek[1]) if ek else None
+        over_all = coll in (("attr", SELF, "fragment_dict"), fdp) or (coll is not None and coll[0] == "entryattr")
+        (obs.append(ob_ok(oid, ini, n.ast, construct="self.fragment_masses[name] = compute_mass(graph) for name, graph in fragment_dict.items()", instance="masses:store",
+                          reason="every fragment's mass is derived from its own graph and filed under its own name")) if src_ok and over_all else
+         obs.append(ob_fail(oid, ini, n.ast, construct="self.fragment_masses[%s] = %s" % (show(key)[:50], show(v)[:70]), instance="masses:store",
+                            reason="the mass stored under a fragment's name is not compute_mass of that fragment's graph, for every fragment of fragment_dict")))
+        # guard: positive on a flag that is True exactly where the table starts empty
+        gs = _guards(ini, n.id)
+        flag_ok = None
+        for test, pol, gid in gs:
+            if isinstance(test, ast.Name):
+                ds = [d for d in il.defs if d.var == test.id and d.kind == "assign" and isinstance(d.value, ast.Constant)]
+                if not ds:
+                    continue
+                flag_ok = pol
+                for d in ds:
+                    arm_sets = [x for x in icfg.nodes if x.kind == "stmt" and isinstance(x.ast, ast.Assign) and ast.unparse(x.ast.targets[0]) == "self.fragment_masses"
+                                and {(ast.unparse(t_), p_) for t_, p_, _ in _guards(ini, x.id)} == {(ast.unparse(t_), p_) for t_, p_, _ in _guards(ini, d.node)}]
+                    if not arm_sets:
+                        flag_ok = False
+                        continue
+                    val = il.canon(arm_sets[0].ast.value, arm_sets[0].id)
+                    empty = val == ("dict", ()) or (is_call(val, "dict") is not None and not is_call(val, "dict")[0])
+                    if bool(d.value.value) != empty:
+                        flag_ok = False
+        if flag_ok is None:
+            obs.append(ob_undecided(oid, ini, n.ast, construct="condition of the mass computation", instance="masses:when",
+                                    reason="cannot identify the flag that says whether masses are derived from the elements"))
+        else:
+            (obs.append(ob_ok(oid, ini, n.ast, construct="masses are computed exactly when the table starts empty", instance="masses:when",
+                              reason="a given mass table is used as is; without one every fragment gets an element-derived mass")) if flag_ok else
+             obs.append(ob_fail(oid, ini, n.ast, construct="flag guarding the mass computation", instance="masses:when",
+                                reason="the element-derived masses are not computed on the path where the mass table starts empty (or are computed over a given table)")))
+    # (c) defaults
+    dflt = "sample:_set_bond_order_defaults"
+    repo.function(dflt)
+    for attr, param in (("polymer_reactivities", "polymer_reactivities"), ("terminal_bonds", "terminal_bonds")):
+        okd = False
+        where = None
+        for n in icfg.nodes:
+            if n.kind == "stmt" and isinstance(n.ast, ast.Assign) and ast.unparse(n.ast.targets[0]) == "self." + attr:
+                where = n
+                v = il.canon(n.ast.value, n.id)
+                okd = v[0] == "call" and v[2] == ("fn", dflt) and v[3] and v[3][0] == ("param", param)
+        (obs.append(ob_ok(oid, ini, where.ast, construct="self.%s = _set_bond_order_defaults(%s)" % (attr, param), instance="defaults:" + attr,
+                          reason="descriptors written without an order get the order 1 suffix the molecule's descriptors carry")) if okd else
+         obs.append(ob_fail(oid, ini, where.ast if where else None, construct="self.%s is not _set_bond_order_defaults(%s)" % (attr, param), instance="defaults:" + attr,
+                            reason="a table keyed by descriptors without order suffix never matches the molecule's descriptors: its reactivities are silently ignored")))
+    okf = False
+    wheref = None
+    for n in icfg.nodes:
+        if n.kind == "stmt" and isinstance(n.ast, ast.Assign) and isinstance(n.ast.targets[0], ast.Subscript) and ast.unparse(n.ast.targets[0].value) == "self.fragment_reactivities":
+            wheref = n
+            v = il.canon(n.ast.value, n.id)
+            c = v[0] == "call" and v[2] == ("fn", dflt) and v[3]
+            evv = elem_of(v[3][0]) if c else None
+            okf = bool(c and evv and evv[0] == "value" and strip_wrappers(evv[1]) == ("param", "fragment_reactivities"))
+    (obs.append(ob_ok(oid, ini, wheref.ast, construct="self.fragment_reactivities[key] = _set_bond_order_defaults(probs)", instance="defaults:fragment_reactivities",
+                      reason="conditional reactivities are keyed with order suffixes")) if okf else
+     obs.append(ob_fail(oid, ini, wheref.ast if wheref else None, construct="fragment_reactivities stored without order-suffix defaulting", instance="defaults:fragment_reactivities",
+                        reason="conditional reactivities written without order suffix are silently ignored")))
+    return obs
